@@ -1,5 +1,17 @@
 /-
   Discharge of `LoaderNoPanic.DecodersTotal` as far as it is true of the models.
+
+  Clause 1 (no decoder reaches a panic site) is a theorem, `applyFilter_no_panic`:
+    * Inflate.inflate "out of fuel": unreachable - `blocks_fuel` (every block costs >= 3 input bits,
+      every Huffman symbol >= 1, and the fuel is one unit per input bit plus 8);
+    * hex2binLoop "slice index": unreachable - `hex2bin` checks the parity first;
+    * ascii85 decode_digit overflow / pad loop / drain range: caught by `a85Decode` (catch_unwind);
+    * predictor index sites: Props/C07 `predictor_never_panics`;  DCT stub: an error.
+  Clause 2 (outputs are at most 2^63 bytes) is FALSE of the list model as stated
+  (`size_clause_false`: 2^64+2 hex zeros decode to 2^63+1 bytes).  What is true: every decoder's
+  output is bounded by its input (`applyFilter_len`: x2064 Flate, x4 ASCII85, x1/2 ASCIIHex; the
+  predictor never grows its input), so the clause is only needed for inputs of more than
+  2^63/2064 bytes: `DecodedSizes`, the one hypothesis of `load_never_panics`.
 -/
 import Parsley.Lemmas.LoaderNoPanic
 import Parsley.Props.C06
@@ -393,7 +405,7 @@ theorem hexDecode_no_panic (inp : Bytes) (p : String) : hexDecode inp ≠ .panic
   · exact fun h => by cases h
   · rename_i s hs; exact absurd hs (hexStage_no_panic _ _ _)
 
-theorem hexDecode_len (inp out : Bytes) (h : hexDecode inp = .ok out) : out.length ≤ inp.length := by
+theorem hexDecode_len (inp out : Bytes) (h : hexDecode inp = .ok out) : 2 * out.length ≤ inp.length := by
   unfold hexDecode at h
   split at h
   · rename_i stage hs
@@ -480,5 +492,639 @@ theorem applyFilter_no_panic (f : Filter) (d : Bytes) (p : String) : applyFilter
       · split
         · exact fun h => by cases h
         · exact fun h => by cases h
+
+/-! predictor sizes -/
+theorem sumLeftLoop_len {α : Type} (add : α → α → α) (d : Nat) :
+    ∀ (rest : List α) (k : Nat) (acc r : List α), Pred.sumLeftLoop add d rest k acc = .ok r →
+      r.length = acc.length + rest.length := by
+  intro rest
+  induction rest with
+  | nil => intro k acc r h; unfold Pred.sumLeftLoop at h; cases h; simp
+  | cons x t ih =>
+    intro k acc r h
+    unfold Pred.sumLeftLoop at h
+    split at h
+    · have := ih _ _ _ h; simp at this ⊢; omega
+    · split at h
+      · have := ih _ _ _ h; simp at this ⊢; omega
+      · split at h
+        · have := ih _ _ _ h; simp at this ⊢; omega
+        · cases h
+
+theorem tiffRow_len (bpc colors : Nat) (row r : Bytes) (h : Pred.tiffRow bpc colors row = .ok r) :
+    r.length ≤ row.length := by
+  unfold Pred.tiffRow at h
+  split at h
+  · have := sumLeftLoop_len _ _ _ _ _ _ h; simp at this; omega
+  · split at h
+    · rename_i ss hs
+      cases h
+      have := sumLeftLoop_len _ _ _ _ _ _ hs
+      rw [C07.unbe16_eq, C07.bytes16_length, this, C07.be16_eq, C07.samples16_length]
+      simp; omega
+    · cases h
+    · cases h
+
+theorem tiffRows_len (bpc colors rl : Nat) : ∀ (n : Nat) (data out r : Bytes),
+    Pred.tiffRows bpc colors rl n data out = .ok r → r.length ≤ out.length + data.length := by
+  intro n
+  induction n with
+  | zero => intro data out r h; unfold Pred.tiffRows at h; cases h; omega
+  | succ n ih =>
+    intro data out r h
+    unfold Pred.tiffRows at h
+    split at h
+    · rename_i row hrow
+      have h1 := tiffRow_len _ _ _ _ hrow
+      have h2 := ih _ _ _ h
+      simp only [List.length_append, List.length_drop, List.length_take] at h1 h2
+      omega
+    · cases h
+    · cases h
+
+theorem pngRowLoop_len (predictor bpp : Nat) (prev : Bytes) : ∀ (rest : Bytes) (k : Nat) (acc r : Bytes),
+    Pred.pngRowLoop predictor bpp prev rest k acc = .ok r → r.length = acc.length + rest.length := by
+  intro rest
+  induction rest with
+  | nil => intro k acc r h; unfold Pred.pngRowLoop at h; cases h; simp
+  | cons x t ih =>
+    intro k acc r h
+    unfold Pred.pngRowLoop at h
+    dsimp only at h
+    split at h
+    · cases h
+    · split at h
+      · cases h
+      · have := ih _ _ _ h; simp at this ⊢; omega
+
+theorem pngRows_len (predictor bpp rl : Nat) : ∀ (n : Nat) (data prev out r : Bytes),
+    Pred.pngRows predictor bpp rl n data prev out = .ok r → r.length ≤ out.length + data.length := by
+  intro n
+  induction n with
+  | zero => intro data prev out r h; unfold Pred.pngRows at h; cases h; omega
+  | succ n ih =>
+    intro data prev out r h
+    unfold Pred.pngRows at h
+    split at h
+    · cases h
+    · rename_i tag enc htake
+      have hl : (data.take rl).length = enc.length + 1 := by rw [htake]; simp
+      split at h
+      · cases h
+      · split at h
+        · cases h
+        · split at h
+          · rename_i row hrow
+            have h1 := pngRowLoop_len _ _ _ _ _ _ _ hrow
+            have h2 := ih _ _ _ _ h
+            simp only [List.length_append, List.length_drop, List.length_take, List.length_nil] at h1 h2 hl
+            omega
+          · cases h
+          · cases h
+
+theorem filter_len (decoded : Bytes) (predictor colors columns bpc : Nat) (r : Bytes)
+    (h : Pred.filter decoded predictor colors columns bpc = .ok r) : r.length ≤ decoded.length := by
+  unfold Pred.filter at h
+  split at h
+  · cases h; exact Nat.le_refl _
+  · split at h
+    · cases h
+    · split at h
+      · cases h
+      · split at h
+        · split at h
+          · cases h
+          · split at h
+            · cases h; simp
+            · split at h
+              · cases h
+              · have := tiffRows_len _ _ _ _ _ _ _ h; simpa using this
+        · split at h
+          · cases h
+          · split at h
+            · cases h
+            · split at h
+              · cases h
+              · have := pngRows_len _ _ _ _ _ _ _ _ h; simpa using this
+
+theorem post_len (d : Dict) (dec r : Bytes) (h : Loader.ext.post d dec = .ok r) : r.length ≤ dec.length :=
+  filter_len _ _ _ _ _ _ h
+
+/-! a85 sizes -/
+theorem a85Stage_len : ∀ (inp st : Bytes) (g : Nat) (out : Bytes), a85Stage inp st g = .ok out →
+    out.length ≤ st.length + 5 * inp.length := by
+  intro inp
+  induction inp with
+  | nil => intro st g out h; unfold a85Stage at h; cases h; simp
+  | cons b t ih =>
+    intro st g out h
+    unfold a85Stage at h
+    split at h
+    · have := ih _ _ _ h; simp only [List.length_cons] at this ⊢; omega
+    · split at h
+      · split at h
+        · cases h
+        · have := ih _ _ _ h; simp only [List.length_cons] at this ⊢; omega
+      · split at h
+        · have := ih _ _ _ h; simp only [List.length_cons] at this ⊢; omega
+        · have := ih _ _ _ h; simp only [List.length_cons] at this ⊢; omega
+
+theorem decodeDigit_pot (d : UInt8) (s s' : A85St) (h : decodeDigit d s = .ok s') :
+    5 * s'.result.length + 4 * s'.counter = 5 * s.result.length + 4 * s.counter + 4 := by
+  unfold decodeDigit at h
+  dsimp only at h
+  split at h
+  · cases h
+  · split at h
+    · cases h
+    · split at h
+      · rename_i hc
+        cases h
+        have : s.counter = 4 := by simpa using hc
+        simp only [List.length_cons]; omega
+      · cases h; simp only; omega
+
+theorem a85Loop_pot : ∀ (l : Bytes) (s s' : A85St), a85Loop l s = .ok s' →
+    5 * s'.result.length + 4 * s'.counter = 5 * s.result.length + 4 * s.counter + 4 * l.length := by
+  intro l
+  induction l with
+  | nil => intro s s' h; unfold a85Loop at h; cases h; simp
+  | cons d t ih =>
+    intro s s' h
+    unfold a85Loop at h
+    split at h
+    · cases h
+    · split at h
+      · cases h
+      · split at h
+        · rename_i s1 hd
+          have h1 := decodeDigit_pot _ _ _ hd
+          have h2 := ih _ _ h
+          simp only [List.length_cons]; omega
+        · cases h
+        · cases h
+
+theorem a85Pad_pot : ∀ (fuel : Nat) (s : A85St) (rm : Nat) (s' : A85St) (rm' : Nat),
+    a85Pad fuel s rm = .ok (s', rm') →
+    5 * s'.result.length + 4 * s'.counter + 5 * rm ≤ 5 * s.result.length + 4 * s.counter + 5 * rm' := by
+  intro fuel
+  induction fuel with
+  | zero =>
+    intro s rm s' rm' h
+    unfold a85Pad at h
+    split at h
+    · cases h; omega
+    · cases h
+  | succ f ih =>
+    intro s rm s' rm' h
+    unfold a85Pad at h
+    split at h
+    · cases h; omega
+    · split at h
+      · rename_i s1 hd
+        have h1 := decodeDigit_pot _ _ _ hd
+        have h2 := ih _ _ _ _ h
+        omega
+      · cases h
+      · cases h
+
+theorem trimLt_len : ∀ (n : Nat) (l : Bytes), l.length ≤ n → (trimLt l).length ≤ l.length := by
+  intro n
+  induction n using Nat.strongRecOn with
+  | _ n ih =>
+    intro l hl
+    match l, hl with
+    | [], _ => simp [trimLt]
+    | [_], _ => simp [trimLt]
+    | a :: b :: t, hl =>
+      unfold trimLt
+      split
+      · have := ih t.length (by simp only [List.length_cons] at hl; omega) t (Nat.le_refl _)
+        simp only [List.length_cons]; omega
+      · exact Nat.le_refl _
+
+theorem trimGtRev_len : ∀ (n : Nat) (l : Bytes), l.length ≤ n → (trimGtRev l).length ≤ l.length := by
+  intro n
+  induction n using Nat.strongRecOn with
+  | _ n ih =>
+    intro l hl
+    match l, hl with
+    | [], _ => simp [trimGtRev]
+    | [_], _ => simp [trimGtRev]
+    | a :: b :: t, hl =>
+      unfold trimGtRev
+      split
+      · have := ih t.length (by simp only [List.length_cons] at hl; omega) t (Nat.le_refl _)
+        simp only [List.length_cons]; omega
+      · exact Nat.le_refl _
+
+theorem dropWhile_len {α : Type} (p : α → Bool) (l : List α) : (l.dropWhile p).length ≤ l.length :=
+  (List.dropWhile_sublist p).length_le
+
+theorem a85Crate_len (stage out : Bytes) (h : a85Crate stage = .ok out) : 5 * out.length ≤ 4 * stage.length := by
+  unfold a85Crate at h
+  dsimp only at h
+  generalize hs : List.filter (fun c => !isAsciiWs c)
+    (trimGtRev (List.dropWhile isUniWs (trimLt (List.dropWhile isUniWs stage)).reverse)).reverse = s at h
+  have hsl : s.length ≤ stage.length := by
+    subst hs
+    refine Nat.le_trans (List.length_filter_le _ _) ?_
+    rw [List.length_reverse]
+    refine Nat.le_trans (trimGtRev_len _ _ (Nat.le_refl _)) ?_
+    refine Nat.le_trans (dropWhile_len _ _) ?_
+    rw [List.length_reverse]
+    exact Nat.le_trans (trimLt_len _ _ (Nat.le_refl _)) (dropWhile_len _ _)
+  split at h
+  · cases h
+  · cases h
+  · rename_i st hl
+    have h1 := a85Loop_pot _ _ _ hl
+    split at h
+    · cases h
+    · cases h
+    · rename_i st' rm hp
+      have h2 := a85Pad_pot _ _ _ _ _ hp
+      split at h
+      · cases h
+      · cases h
+        simp only [List.length_reverse, List.length_drop, List.length_nil] at h1 h2 ⊢
+        omega
+
+theorem a85Decode_len (inp out : Bytes) (h : a85Decode inp = .ok out) : out.length ≤ 4 * inp.length := by
+  unfold a85Decode at h
+  split at h
+  · rename_i stage hs
+    have h1 := a85Stage_len _ _ _ _ hs
+    split at h
+    · rename_i o hc
+      cases h
+      have h2 := a85Crate_len _ _ hc
+      simp only [List.length_nil] at h1; omega
+    · cases h
+    · cases h
+  · cases h
+  · cases h
+
+/-- the factor 4 is attained: one `z` decodes to four bytes -/
+theorem a85_expands_witness : a85Decode [0x7A, 0x7E, 0x3E] = .ok [0, 0, 0, 0] := by decide
+
+/-! inflate sizes -/
+theorem bitsAux_lt (n : Nat) : ∀ (rest : Bytes) (acc cnt v : Nat) (r' : BitRd),
+    bitsAux n rest acc cnt = some (v, r') → v < 2 ^ n := by
+  intro rest
+  induction rest with
+  | nil =>
+    intro acc cnt v r' h
+    unfold bitsAux at h
+    split at h
+    · cases h; exact Nat.mod_lt _ (Nat.two_pow_pos n)
+    · cases h
+  | cons b t ih =>
+    intro acc cnt v r' h
+    unfold bitsAux at h
+    split at h
+    · cases h; exact Nat.mod_lt _ (Nat.two_pow_pos n)
+    · exact ih _ _ _ _ h
+
+theorem bits_lt {r : BitRd} {n v : Nat} {r' : BitRd} (h : r.bits n = some (v, r')) : v < 2 ^ n :=
+  bitsAux_lt n _ _ _ _ _ h
+
+theorem len_le : ∀ s, s < 29 → lenBase[s]?.getD 0 + 2 ^ (lenExtra[s]?.getD 0) ≤ 259 := by decide
+
+theorem copyBack_size (d : Nat) : ∀ (n : Nat) (out : Array UInt8), (copyBack d n out).size = out.size + n := by
+  intro n
+  induction n with
+  | zero => intro out; simp [copyBack]
+  | succ n ih => intro out; unfold copyBack; rw [ih]; simp; omega
+
+theorem codes_size (lit dist : Huff) : ∀ (fuel : Nat) (out : Array UInt8) (r : BitRd) (out' : Array UInt8) (r' : BitRd),
+    codes lit dist fuel out r = .done out' r' → out'.size + 258 * bl r' ≤ out.size + 258 * bl r := by
+  intro fuel
+  induction fuel with
+  | zero => intro out r out' r' h; unfold codes at h; cases h
+  | succ f ih =>
+    intro out r out' r' h
+    unfold codes at h
+    cases hd : decodeSym lit r with
+    | none => rw [hd] at h; cases h
+    | some p =>
+      obtain ⟨x, r1⟩ := p
+      have h1 := decodeSym_bl hd
+      rw [hd] at h
+      cases x with
+      | none => cases h
+      | some sym =>
+        dsimp only at h
+        split at h
+        · have := ih _ _ _ _ h
+          simp only [Array.size_push] at this; omega
+        · split at h
+          · cases h; omega
+          · split at h
+            · cases h
+            · rename_i hs29
+              cases hb : r1.bits (lenExtra[sym - 257]?.getD 0) with
+              | none => rw [hb] at h; cases h
+              | some p2 =>
+                obtain ⟨e, r2⟩ := p2
+                have h2 := bits_bl hb
+                have he := bits_lt hb
+                have hle := len_le (sym - 257) (by omega)
+                rw [hb] at h
+                dsimp only at h
+                cases hd2 : decodeSym dist r2 with
+                | none => rw [hd2] at h; cases h
+                | some p3 =>
+                  obtain ⟨y, r3⟩ := p3
+                  have h3 := decodeSym_bl hd2
+                  rw [hd2] at h
+                  cases y with
+                  | none => cases h
+                  | some ds =>
+                    dsimp only at h
+                    split at h
+                    · cases h
+                    · cases hb4 : r3.bits (distExtra[ds]?.getD 0) with
+                      | none => rw [hb4] at h; cases h
+                      | some p4 =>
+                        obtain ⟨e4, r4⟩ := p4
+                        have h4 := bits_bl hb4
+                        rw [hb4] at h
+                        dsimp only at h
+                        split at h
+                        · cases h
+                        · have := ih _ _ _ _ h
+                          rw [copyBack_size] at this
+                          omega
+
+theorem takeBytes_size : ∀ (n : Nat) (rest : Bytes) (out out' : Array UInt8) (rest' : Bytes),
+    takeBytes n rest out = some (out', rest') → out'.size + rest'.length = out.size + rest.length := by
+  intro n
+  induction n with
+  | zero => intro rest out out' rest' h; unfold takeBytes at h; cases h; rfl
+  | succ n ih =>
+    intro rest out out' rest' h
+    cases rest with
+    | nil => unfold takeBytes at h; cases h
+    | cons b t =>
+      unfold takeBytes at h
+      have := ih _ _ _ _ h
+      simp only [List.length_cons, Array.size_push] at this ⊢; omega
+
+theorem blocks_size : ∀ (fuel : Nat) (out : Array UInt8) (r : BitRd) (out' : Array UInt8) (r' : BitRd),
+    blocks fuel out r = .done out' r' → out'.size + 258 * bl r' ≤ out.size + 258 * bl r := by
+  intro fuel
+  induction fuel with
+  | zero => intro out r out' r' h; unfold blocks at h; cases h
+  | succ f ih =>
+    intro out r out' r' h
+    unfold blocks at h
+    cases hb1 : r.bits 1 with
+    | none => rw [hb1] at h; cases h
+    | some p1 =>
+      obtain ⟨final, r1⟩ := p1
+      have h1 := bits_bl hb1
+      rw [hb1] at h
+      dsimp only at h
+      cases hb2 : r1.bits 2 with
+      | none => rw [hb2] at h; cases h
+      | some p2 =>
+        obtain ⟨typ, r2⟩ := p2
+        have h2 := bits_bl hb2
+        rw [hb2] at h
+        dsimp only at h
+        have hnext : ∀ (o : Array UInt8) (rr : BitRd), o.size + 258 * bl rr ≤ out.size + 258 * bl r2 →
+            (if (final == 1) = true then RawEnd.done o rr else blocks f o rr) = .done out' r' →
+            out'.size + 258 * bl r' ≤ out.size + 258 * bl r := by
+          intro o rr hrr hh
+          split at hh
+          · cases hh; omega
+          · have := ih _ _ _ _ hh; omega
+        split at h
+        · split at h
+          · rename_i l0 l1 n0 n1 rest hrest
+            split at h
+            · cases h
+            · split at h
+              · cases h
+              · rename_i o' rest' htb
+                have := takeBytes_size _ _ _ _ _ htb
+                have hle' := takeBytes_len _ _ _ _ _ htb
+                refine hnext _ _ ?_ h
+                simp only [bl, BitRd.align] at hrest ⊢
+                rw [hrest]
+                simp only [List.length_cons]; omega
+          · cases h
+        · split at h
+          · split at h
+            · rename_i o' rr hcd
+              exact hnext _ _ (codes_size _ _ _ _ _ _ _ hcd) h
+            · cases h
+            · cases h
+            · cases h
+          · split at h
+            · split at h
+              · cases h
+              · cases h
+              · rename_i lit dist r3 hdt
+                have h3 := dynamicTables_bl hdt
+                split at h
+                · rename_i o' rr hcd
+                  exact hnext _ _ (by have := codes_size _ _ _ _ _ _ _ hcd; omega) h
+                · cases h
+                · cases h
+                · cases h
+            · cases h
+
+theorem inflate_len (input out : Bytes) (h : inflate input = .ok out) : out.length ≤ 2064 * input.length := by
+  unfold inflate at h
+  split at h
+  · rename_i cmf flg rest
+    split at h
+    · cases h
+    · split at h
+      · cases h
+      · split at h
+        · cases h
+        · split at h
+          · cases h
+          · split at h
+            · rename_i o rr hb
+              have := blocks_size _ _ _ _ _ hb
+              split at h
+              · dsimp only at h
+                split at h
+                · cases h
+                  simp only [bl, Array.length_toList, List.length_cons] at this ⊢
+                  simp at this
+                  omega
+                · cases h
+              · cases h
+            · cases h
+            · cases h
+            · cases h
+  · cases h
+
+/-! ## The size clause: bounds relative to the input, and what remains -/
+
+/-- FlateDecode's output is never longer than what zlib inflated (the predictor only drops
+    bytes), which is at most 2064 bytes per input byte (258 bytes per input bit). -/
+theorem flateDecode_len (o : Option Dict) (d d' : Bytes) (h : flateDecode Loader.ext o d = .ok d') :
+    ∃ z, Inflate.inflate d = .ok z ∧ d'.length ≤ z.length := by
+  rcases flateDecode_eq Loader.ext o d with ⟨k, hk⟩ | ⟨z, hz, hd⟩
+  · rw [hk] at h; cases h
+  · refine ⟨z, hz, ?_⟩
+    rw [hd] at h
+    split at h
+    · cases h; exact Nat.le_refl _
+    · exact post_len _ _ _ h
+
+/-- every decoder's output is bounded by its input: ×2064 (Flate), ×4 (ASCII85), ×1/2 (ASCIIHex) -/
+theorem applyFilter_len (f : Filter) (d d' : Bytes) (h : applyFilter Loader.ext f d = .ok d') :
+    d'.length ≤ 2064 * d.length := by
+  unfold applyFilter at h
+  split at h
+  · obtain ⟨z, hz, hl⟩ := flateDecode_len _ _ _ h
+    have := inflate_len _ _ hz; omega
+  · split at h
+    · have := a85Decode_len _ _ h; omega
+    · split at h
+      · have := hexDecode_len _ _ h; omega
+      · split at h
+        · cases h
+        · cases h
+
+/-- What is left of the size clause of `DecodersTotal`: only inputs far beyond any Rust buffer
+    the loader can hold (`> 2^63 / 2064` bytes for zlib, `> 2^61` for ASCII85, `> 2^64` for hex). -/
+structure DecodedSizes : Prop where
+  inflate : ∀ d z : Bytes, 2 ^ 63 < 2064 * d.length → Inflate.inflate d = .ok z → z.length ≤ 2 ^ 63
+  a85 : ∀ d d' : Bytes, 2 ^ 63 < 4 * d.length → a85Decode d = .ok d' → d'.length ≤ 2 ^ 63
+  hex : ∀ d d' : Bytes, 2 ^ 64 < d.length → hexDecode d = .ok d' → d'.length ≤ 2 ^ 63
+
+theorem applyFilter_buffer (hs : DecodedSizes) (f : Filter) (d d' : Bytes)
+    (h : applyFilter Loader.ext f d = .ok d') : d'.length ≤ 2 ^ 63 := by
+  unfold applyFilter at h
+  split at h
+  · obtain ⟨z, hz, hl⟩ := flateDecode_len _ _ _ h
+    by_cases hb : 2 ^ 63 < 2064 * d.length
+    · have := hs.inflate d z hb hz; omega
+    · have := inflate_len _ _ hz; omega
+  · split at h
+    · by_cases hb : 2 ^ 63 < 4 * d.length
+      · exact hs.a85 d d' hb h
+      · have := a85Decode_len _ _ h; omega
+    · split at h
+      · by_cases hb : 2 ^ 64 < d.length
+        · exact hs.hex d d' hb h
+        · have := hexDecode_len _ _ h; omega
+      · split at h
+        · cases h
+        · cases h
+
+/-- `DecodersTotal` from the size hypothesis alone: the no-panic clause is a theorem. -/
+theorem decodersTotal (hs : DecodedSizes) : LoaderNoPanic.DecodersTotal :=
+  ⟨applyFilter_no_panic, applyFilter_buffer hs⟩
+
+/-- `DecodedSizes` is no stronger than the size clause of `DecodersTotal` … -/
+theorem decodedSizes_of_clause
+    (h : ∀ (f : Filter) (d d' : Bytes), applyFilter Loader.ext f d = .ok d' → d'.length ≤ 2 ^ 63) :
+    DecodedSizes where
+  inflate d z _ hz := h ⟨nFlate, none⟩ d z (by
+    unfold applyFilter; rw [if_pos rfl]; exact C06.flateDecode_ok _ _ _ _ rfl hz)
+  a85 d d' _ hd := h ⟨nA85, none⟩ d d' (by
+    unfold applyFilter; rw [if_neg (by decide), if_pos rfl]; exact hd)
+  hex d d' _ hd := h ⟨nHex, none⟩ d d' (by
+    unfold applyFilter; rw [if_neg (by decide), if_neg (by decide), if_pos rfl]; exact hd)
+
+/-- … and follows from that clause restricted to inputs of more than `2^63 / 2064` bytes. -/
+theorem decodedSizes_of_big
+    (h : ∀ (f : Filter) (d d' : Bytes), 2 ^ 63 < 2064 * d.length →
+      applyFilter Loader.ext f d = .ok d' → d'.length ≤ 2 ^ 63) : DecodedSizes where
+  inflate d z hb hz := h ⟨nFlate, none⟩ d z hb (by
+    unfold applyFilter; rw [if_pos rfl]; exact C06.flateDecode_ok _ _ _ _ rfl hz)
+  a85 d d' hb hd := h ⟨nA85, none⟩ d d' (by omega) (by
+    unfold applyFilter; rw [if_neg (by decide), if_pos rfl]; exact hd)
+  hex d d' hb hd := h ⟨nHex, none⟩ d d' (by omega) (by
+    unfold applyFilter; rw [if_neg (by decide), if_neg (by decide), if_pos rfl]; exact hd)
+
+/-- **C03/C04 robustness, decoders discharged.**  `parse_data` reaches no panic site on any input
+    of less than `2^62` bytes; the only hypothesis left is that decoding a stream of more than
+    `2^63 / 2064` bytes (which cannot occur inside such a file, but which the list model cannot
+    rule out for intermediate results of a filter chain) yields a Rust buffer. -/
+theorem load_never_panics (data : Bytes) (hlen : data.length < 2 ^ 62) (hsize : DecodedSizes) :
+    (Loader.parseData data).isPanic = false :=
+  LoaderNoPanic.load_never_panics_partial data hlen (decodersTotal hsize)
+
+/-- the same with the hypothesis in the shape of the size clause of `DecodersTotal`, restricted to
+    over-long inputs -/
+theorem load_never_panics' (data : Bytes) (hlen : data.length < 2 ^ 62)
+    (hsize : ∀ (f : Filter) (d d' : Bytes), 2 ^ 63 < 2064 * d.length →
+      applyFilter Loader.ext f d = .ok d' → d'.length ≤ 2 ^ 63) :
+    (Loader.parseData data).isPanic = false :=
+  load_never_panics data hlen (decodedSizes_of_big hsize)
+
+/-! ## The size clause itself is false of the list model -/
+theorem hexStage_zeros : ∀ (m k : Nat),
+    hexStage (List.replicate m 0x30 ++ [0x3E]) (List.replicate k 0x30) =
+      .ok (if (m + k) % 2 == 1 then List.replicate (m + k + 1) 0x30 else List.replicate (m + k) 0x30) := by
+  intro m
+  induction m with
+  | zero =>
+    intro k
+    simp only [List.replicate_zero, List.nil_append, Nat.zero_add]
+    unfold hexStage
+    rw [if_neg (by decide), if_pos (by decide)]
+    simp only [List.length_replicate, ← List.replicate_succ, List.reverse_replicate]
+  | succ m ih =>
+    intro k
+    rw [List.replicate_succ, List.cons_append]
+    unfold hexStage
+    rw [if_neg (by decide), if_neg (by decide), if_pos (by decide), ← List.replicate_succ, ih]
+    have : m + (k + 1) = m + 1 + k := by omega
+    rw [this]
+
+theorem hex2binLoop_zeros : ∀ (n j : Nat),
+    hex2binLoop (List.replicate (2 * n) 0x30) (List.replicate j 0) = .ok (List.replicate (j + n) 0) := by
+  intro n
+  induction n with
+  | zero => intro j; simp [hex2binLoop]
+  | succ n ih =>
+    intro j
+    have : 2 * (n + 1) = 2 * n + 1 + 1 := by omega
+    rw [this, List.replicate_succ, List.replicate_succ]
+    unfold hex2binLoop
+    have hn : nibble 0x30 = some 0 := by decide
+    simp only [hn]
+    have hz : (((0 : UInt8) <<< 4 ||| 0) <<< 4 ||| 0) = 0 := by decide
+    rw [hz, ← List.replicate_succ, ih]
+    have : j + 1 + n = j + (n + 1) := by omega
+    rw [this]
+
+/-- `2n` hex zeros decode to `n` zero bytes, for every `n` -/
+theorem hexDecode_zeros (n : Nat) :
+    hexDecode (List.replicate (2 * n) 0x30 ++ [0x3E]) = .ok (List.replicate n 0) := by
+  unfold hexDecode
+  have := hexStage_zeros (2 * n) 0
+  simp only [List.replicate_zero, Nat.add_zero] at this
+  rw [this]
+  rw [if_neg (by simp)]
+  dsimp only
+  unfold hex2bin
+  simp only [List.length_replicate]
+  rw [if_neg (by simp), if_neg (by simp)]
+  have := hex2binLoop_zeros n 0
+  simpa using this
+
+/-- The size clause of `DecodersTotal` does not hold of the list model without a bound on the
+    decoder's input (lists, unlike Rust buffers, can be longer than `isize::MAX`): some size
+    hypothesis is unavoidable as long as `DecodersTotal` quantifies over all inputs. -/
+theorem size_clause_false :
+    ¬ ∀ (f : Filter) (d d' : Bytes), applyFilter Loader.ext f d = .ok d' → d'.length ≤ 2 ^ 63 := by
+  intro h
+  have := h ⟨nHex, none⟩ _ _ (by
+    unfold applyFilter; rw [if_neg (by decide), if_neg (by decide), if_pos rfl]
+    exact hexDecode_zeros (2 ^ 63 + 1))
+  simp only [List.length_replicate] at this
+  omega
 
 end Parsley.LoaderDecoders
